@@ -226,6 +226,15 @@ class Folder:
             return out
         if isinstance(expr, ast.Call):
             return self._fold_call(expr, scope)
+        if isinstance(expr, (ast.DictComp, ast.ListComp, ast.SetComp, ast.GeneratorExp)):
+            return self._fold_comp(expr, scope)
+        if isinstance(expr, ast.Subscript) and not isinstance(expr.slice, ast.Slice):
+            base = self.fold(expr.value, scope)
+            key = self.fold(expr.slice, scope)
+            try:
+                return base[key]
+            except Exception as e:  # noqa
+                raise Unfoldable(str(e))
         if isinstance(expr, ast.JoinedStr):
             raise Unfoldable("f-string")
         raise Unfoldable(type(expr).__name__)
@@ -272,7 +281,64 @@ class Folder:
             return {"list": list, "tuple": tuple, "set": frozenset, "frozenset": frozenset}[fn.id](v)
         if isinstance(fn, ast.Name) and fn.id == "len" and len(expr.args) == 1:
             return len(self.fold(expr.args[0], scope))
+        if isinstance(fn, ast.Attribute) and fn.attr in ("items", "keys", "values") and not expr.args:
+            base = self.fold(fn.value, scope)
+            if isinstance(base, dict):
+                return list(getattr(base, fn.attr)())
+        if isinstance(fn, ast.Attribute) and fn.attr == "get" and 1 <= len(expr.args) <= 2:
+            base = self.fold(fn.value, scope)
+            if isinstance(base, dict):
+                return base.get(*[self.fold(a, scope) for a in expr.args])
         raise Unfoldable(f"call {name}")
+
+    def _fold_comp(self, expr, scope: Scope):
+        results = []
+
+        def bind(target, value, env):
+            if isinstance(target, ast.Name):
+                env[target.id] = value
+            elif isinstance(target, (ast.Tuple, ast.List)):
+                vals = list(value)
+                if len(vals) != len(target.elts):
+                    raise Unfoldable("unpack")
+                for t, v in zip(target.elts, vals):
+                    bind(t, v, env)
+            else:
+                raise Unfoldable("comprehension target")
+
+        def rec(gens, env):
+            if not gens:
+                sc = Scope(scope.mod, scope.cls, env)
+                if getattr(scope, "in_class_body", False):
+                    sc.in_class_body = True
+                if isinstance(expr, ast.DictComp):
+                    results.append((self.fold(expr.key, sc), self.fold(expr.value, sc)))
+                else:
+                    results.append(self.fold(expr.elt, sc))
+                return
+            g = gens[0]
+            sc = Scope(scope.mod, scope.cls, env)
+            if getattr(scope, "in_class_body", False):
+                sc.in_class_body = True
+            it = self.fold(g.iter, sc)
+            n = 0
+            for item in it:
+                n += 1
+                if n > 100000:
+                    raise Unfoldable("comprehension too large")
+                e2 = dict(env)
+                bind(g.target, item, e2)
+                sc2 = Scope(scope.mod, scope.cls, e2)
+                if getattr(scope, "in_class_body", False):
+                    sc2.in_class_body = True
+                if all(self.fold(c, sc2) for c in g.ifs):
+                    rec(gens[1:], e2)
+        rec(expr.generators, dict(scope.env or {}))
+        if isinstance(expr, ast.DictComp):
+            return dict(results)
+        if isinstance(expr, ast.SetComp):
+            return frozenset(results)
+        return list(results)
 
     def try_fold(self, expr: ast.expr, scope: Scope, default=None):
         try:
